@@ -38,6 +38,7 @@ THEOREMS = ['BB.Props.C14.' + n for n in (
     'BB.Props.C14.include_tree_same_result',
     'BB.Props.C14.deepTree_valid',
     'BB.Props.C14.deep_same',
+    'BB.Props.C14.include_tree_same_result_errors',
 ]
 
 RULE = ('seeded include trees: depth 0-4; include line first / middle / last / only line of the including file; the included '
